@@ -10,7 +10,7 @@ import (
 )
 
 func init() {
-	register("C15", "Argument resolution: (R1) validation excludes unconvertible literals — in the OnValue observer of ValuesOfCorrectType the conversion test (Value.Value, error -> addError) cannot be skipped by any return other than those taken because an annotation is missing, and the report after a failed conversion is guarded by the error test only; (R2) nil safety of arg2map, Field.ArgumentMap, Directive.ArgumentMap and Value.Value under the validated-document precondition, and the panics of arg2map are reached only through a conversion error; (R3) variable presence is decided by the comma-ok form of the lookup in the variables map — the looked-up value is never compared with nil to decide between the supplied value and a default (an explicit null must win over the default); (R4) Field.ArgumentMap and Directive.ArgumentMap are the same single call of arg2map on their own definition's arguments and their own arguments; (R5) in arg2map the literal/variable branch is tried first, the default is consulted only when no value was found, and the result is written only when a value was found. (R7) index and slice expressions reachable from ArgumentMap are in bounds; (R8) an explicit null supplied for a variable is written to the coerced map on every path (C14.R10). (R1 also) every child is walked before the node's observers run (C09.R5), so the conversion test sees every literal.", runC15)
+	register("C15", "Argument resolution: (R1) validation excludes unconvertible literals — in the OnValue observer of ValuesOfCorrectType the conversion test (Value.Value, error -> addError) cannot be skipped by any return other than those taken because an annotation is missing, and the report after a failed conversion is guarded by the error test only; (R2) nil safety of arg2map, Field.ArgumentMap, Directive.ArgumentMap and Value.Value under the validated-document precondition, and the panics of arg2map are reached only through a conversion error; (R3) variable presence is decided by the comma-ok form of the lookup in the variables map — the looked-up value is never compared with nil to decide between the supplied value and a default (an explicit null must win over the default); (R4) Field.ArgumentMap and Directive.ArgumentMap are the same single call of arg2map on their own definition's arguments and their own arguments; (R5) in arg2map the literal/variable branch is tried first, the default is consulted only when no value was found, and the result is written only when a value was found. (R7) index and slice expressions reachable from ArgumentMap are in bounds; (R8) an explicit null supplied for a variable is written to the coerced map on every path (C14.R10). (R1 also) every child is walked before the node's observers run (C09.R5), so the conversion test sees every literal. (R9) resolution reads no operation-relative link.", runC15)
 }
 
 func runC15(c *Ctx) {
